@@ -23,6 +23,9 @@ static vh::Out out;
 static bool THOROUGH = false;
 static uint64_t SEED = 1;
 static long g_case = 0;
+// rolling watchdog: every case re-arms it, so a call that hangs is reported (with the case in flight) after this many
+// seconds instead of at the end of the run's global limit
+static void arm() { vh::watch(THOROUGH ? 900 : 120); }
 
 // ------------------------------------------------------------------------------------ reference
 static std::vector<ld> gain_norm(const std::vector<double>& h, int L) {
@@ -147,6 +150,7 @@ static std::string jcase(Kind k, int L, int M, const std::vector<double>& h, con
 static void run_converter(Kind k, int L, int M, const std::vector<double>& h, const char* hkind, bool default_ctor,
                           const std::vector<int>& frames, const std::vector<double>& Xall, const char* xkind, bool corr) {
     ++g_case;
+    arm();
     const std::string js = jcase(k, L, M, h, hkind, frames, Xall, xkind);
     const std::string K = std::string("C08:") + kind_name[k];
     vh::set_current(K + "-crash", js);
@@ -264,9 +268,41 @@ static std::vector<double> gen_x(vh::Rng& r, size_t n, int kind, double fmax, co
     case 2: { *name = "sweep"; for (size_t i = 0; i < n; ++i) { const double t = double(i); x[i] = std::sin(6.283185307179586 * (0.5 * fmax * t * t / double(n ? n : 1))); } break; }
     case 3: *name = "impulse"; if (n) x[r.range(0, int(n) - 1)] = 1.0; break;
     case 4: *name = "step"; for (auto& v : x) v = 1.0; break;
-    default: *name = "ramp-int"; for (size_t i = 0; i < n; ++i) x[i] = double(int(i % 17) - 8); break;
+    case 5: *name = "ramp-int"; for (size_t i = 0; i < n; ++i) x[i] = double(int(i % 17) - 8); break;
+    case 6: {   // bursts separated by runs of exact zeros (runs up to a third of the stream: longer than any filter state)
+        *name = "zero-runs";
+        size_t i = 0;
+        while (i < n) {
+            const size_t burst = size_t(r.range(1, 40)), gap = size_t(r.range(1, int(std::max<size_t>(2, n / 3))));
+            for (size_t j = 0; j < burst && i < n; ++j, ++i) x[i] = r.gauss();
+            for (size_t j = 0; j < gap && i < n; ++j, ++i) x[i] = 0.0;
+        }
+        break;
+    }
+    default: *name = "neg-zero"; for (auto& v : x) v = (r.range(0, 5) == 0) ? r.sym() : -0.0; break;
     }
     return x;
+}
+// absolute scale classes of every numeric input (coefficients and signal): the converters normalise h by its sum, so the
+// chain is invariant under a scale of h and equivariant under a scale of x (the oracle's tolerance is relative)
+static const double SCALES[] = {1e-300, 1e-17, 1e-8, 1e8, 1e100, -1.0, 0x1p-600, 0x1p40, 1e-320 /* denormal taps */, 3.0};
+static const int NSCALES = int(sizeof(SCALES) / sizeof(SCALES[0]));
+static const char* scale_name(int i) {
+    static const char* nm[] = {"1e-300", "1e-17", "1e-8", "1e8", "1e100", "-1", "2^-600", "2^40", "1e-320", "3"};
+    return nm[i];
+}
+static void scale_by(std::vector<double>& v, double s) { for (auto& e : v) e *= s; }
+// symmetric, mostly exact zeros (whole polyphase branches vanish), zeros at both ends
+static std::vector<double> rand_sparse(vh::Rng& r, int n) {
+    std::vector<double> h((size_t)n, 0.0);
+    h[size_t(n / 2)] = h[size_t(n - 1 - n / 2)] = 1.0 + r.unit();
+    for (int t = 0; t < 1 + n / 16; ++t) {
+        const int i = r.range(0, n - 1);
+        const double v = 0.2 * r.sym();
+        h[size_t(i)] += v;
+        if (i != n - 1 - i) h[size_t(n - 1 - i)] += v;
+    }
+    return h;
 }
 // framing of a stream: `nf` frames, lengths = multiples of M (some zero), with `bad` illegal frames interleaved
 static std::vector<int> gen_frames(vh::Rng& r, int M, int nf, int maxmult, bool with_bad) {
@@ -292,7 +328,7 @@ static void sweep_ratio(vh::Rng& r, Kind k, int L, int M, int reps, size_t corr_
         std::vector<double> h;
         const char* hkind;
         bool dflt = false;
-        const int pick = rep % 6;
+        const int pick = rep % 8, cycle = rep / 8;
         if (pick == 0) {
             hkind = "default";
             dflt = true;
@@ -302,7 +338,14 @@ static void sweep_ratio(vh::Rng& r, Kind k, int L, int M, int reps, size_t corr_
         else if (pick == 2) { hkind = "sym-multiple"; h = rand_symmetric(r, R * r.range(1, 40)); }
         else if (pick == 3) { hkind = "sym-any"; h = rand_symmetric(r, r.range(2, 40 * R)); }
         else if (pick == 4) { hkind = "sym-max"; h = rand_symmetric(r, 40 * R - r.range(0, 1)); }
-        else { hkind = "nonsym"; h = rand_any(r, r.range(2, 6 * R)); }
+        else if (pick == 5) { hkind = "nonsym"; h = rand_any(r, r.range(2, 6 * R)); }
+        else if (pick == 6) { hkind = "single-tap"; h = {r.coin() ? 1.0 + r.unit() : -0.5 - r.unit()}; }   // state of length 0
+        else { hkind = "sparse"; h = rand_sparse(r, r.range(3, 8 * R)); }
+        // scale classes: odd cycles scale the coefficients, every third cycle the signal (class rotates with ratio, rep and seed)
+        int hs = -1, xs = -1;
+        if (pick != 0 && cycle % 2 == 1) hs = int((uint64_t(L) * 7 + uint64_t(M) * 3 + uint64_t(rep) + SEED) % uint64_t(NSCALES));
+        if (cycle % 3 == 1 || (cycle == 0 && pick == 5)) xs = int((uint64_t(L) * 5 + uint64_t(M) * 11 + uint64_t(rep) + SEED) % 8u);   // not the denormal class
+        if (hs >= 0) { scale_by(h, SCALES[hs]); out.stat(std::string("hscale_") + scale_name(hs)); }
         if (k == RESAMPLER && L / std::gcd(L, M) == M / std::gcd(L, M)) dflt = (pick == 0);
         bool byp;
         const Kind md = mode_of(k, L, M, &byp);
@@ -313,9 +356,245 @@ static void sweep_ratio(vh::Rng& r, Kind k, int L, int M, int reps, size_t corr_
         const int maxmult = std::max(1, std::min(64, (2 * sub + 4)));
         const auto frames = gen_frames(r, Mfr, r.range(1, 4), (rep % 2) ? maxmult : std::max(1, maxmult / 8 + 1), rep % 3 != 1);
         const char* xkind;
-        const auto X = gen_x(r, total(frames) + size_t(2 * M + 2), r.range(0, 5), fmax, &xkind);
-        const bool corr = rep < g_corr_reps && h_tokens(h, frames, L, Mfr) <= corr_budget;
+        auto X = gen_x(r, total(frames) + size_t(2 * M + 2), r.range(0, 7), fmax, &xkind);
+        if (xs >= 0) { scale_by(X, SCALES[xs]); out.stat(std::string("xscale_") + scale_name(xs)); }
+        const bool corr = (rep < g_corr_reps || ((rep % 8 >= 6 || hs >= 0) && rep < 16 && (!THOROUGH || rep % 2 == 1))) && h_tokens(h, frames, L, Mfr) <= corr_budget;
         run_converter(k, L, M, h, hkind, dflt, frames, X, xkind, corr);
+    }
+}
+
+// ------------------------------------------------------------------------------------ large frames / long histories
+// Input the Lean driver regenerates itself (no multi-megabyte protocol lines): integer values in -9..9 times a scale,
+// optionally with alternating runs of `zrun` exact zeros (signed zeros for a negative scale).
+struct XGen { int a; int zrun; double scale; };
+static double xgen(const XGen& g, uint64_t i) {
+    const int v = int((i * i + 3 * i + uint64_t(g.a)) % 19) - 9;
+    const bool z = g.zrun > 0 && (i / uint64_t(g.zrun)) % 2 == 1;
+    return double(z ? 0 : v) * g.scale;
+}
+// digest of one output frame for CORR: length, first and last (up to) 8 samples, left-to-right sum
+static std::string digest(const arr_real& y) {
+    const int n = y.size(), k = std::min(n, 8);
+    std::string s = std::to_string(n) + " " + std::to_string(k);
+    for (int i = 0; i < k; ++i) s += " " + vh::hx(y[i]);
+    for (int i = n - k; i < n; ++i) s += " " + vh::hx(y[i]);
+    double sum = 0;
+    for (int i = 0; i < n; ++i) sum += y[i];
+    return s + " " + vh::hx(sum);
+}
+
+// One converter, one history of (possibly very large) frames.  The chain oracle is evaluated on EVERY output sample of
+// every call (first and last ones included); rejected frames must not consume input nor disturb the state.
+// `xg` != nullptr: generated input, the history also goes through CORR as a digest line (tag `big`); else a random signal.
+static void run_big(vh::Rng& r, Kind k, int L, int M, const std::vector<double>& h, const char* hkind, bool default_ctor,
+                    const std::vector<int>& frames, const XGen* xg, const char* cls) {
+    ++g_case;
+    arm();
+    const char* xkind = "xgen";
+    std::vector<double> Xall;
+    if (xg) {
+        Xall.resize(total(frames) + 1);
+        for (size_t i = 0; i < Xall.size(); ++i) Xall[i] = xgen(*xg, i);
+    } else {
+        const double fmax = 0.5 * std::min(1.0, double(L) / double(M));
+        Xall = gen_x(r, total(frames) + 1, r.range(0, 7), fmax, &xkind);
+    }
+    std::string js = jcase(k, L, M, h, hkind, frames, std::vector<double>(), xkind);
+    js.pop_back();
+    js += std::string(",\"class\":\"") + cls + "\"";
+    if (xg) js += ",\"xgen\":[" + std::to_string(xg->a) + "," + std::to_string(xg->zrun) + "," + vh::jnum(xg->scale) + "]";
+    const std::string K = std::string("C08:") + kind_name[k];
+    vh::set_current(K + "-crash", js + "}");
+    const arr_real ha = arr(h);
+    bool bypass;
+    const Kind mode = mode_of(k, L, M, &bypass);
+    const int g = std::gcd(L, M);
+    const int Lr = (k == RESAMPLER) ? L / g : L, Mr = (k == RESAMPLER) ? M / g : M;
+    const int Md = bypass ? 1 : (mode == INTERP ? 1 : Mr);
+    const int Li = bypass ? 1 : (mode == DECIM ? 1 : Lr);
+    std::unique_ptr<IResampler> obj, obj2;
+    try {
+        obj = make(k, L, M, &ha);
+        if (default_ctor) obj2 = make(k, L, M, nullptr);
+    } catch (const std::exception&) {
+        vh::clear_current();
+        out.fail(K + "-ctor-throws", js + "}");
+        return;
+    }
+    out.n_oracle++;
+    if (obj->interp_rate() != Li || obj->decim_rate() != Md) out.fail(K + "-rates", js + "}");
+    std::string lhs, rhs;
+    if (xg) {
+        lhs = std::string("big ") + kind_name[k] + " " + std::to_string(L) + " " + std::to_string(M) + " " + vh::hxs(ha) + " " + std::to_string(xg->a) + " " +
+              std::to_string(xg->zrun) + " " + vh::hx(xg->scale) + " " + std::to_string(frames.size());
+        for (int len : frames) lhs += " " + std::to_string(len);
+        rhs = std::to_string(obj->delay()) + " " + std::to_string(obj->interp_rate()) + " " + std::to_string(obj->decim_rate());
+    }
+    std::vector<double> X, Y;
+    std::vector<size_t> ystart;   // first output index of every accepted frame
+    std::vector<int> yframe;
+    size_t pos = 0;
+    bool ok = true;
+    int fi = 0;
+    for (int len : frames) {
+        const arr_real fr = arr(Xall, pos, size_t(len));
+        const bool must_reject = (len % Md) != 0;
+        try {
+            const arr_real y = obj->process(fr);
+            if (xg) rhs += " " + digest(y);
+            if (must_reject) { out.fail("C08:frame-not-rejected", js + "}"); ok = false; }
+            if (long(y.size()) != long(len) / Md * Li) { out.fail("C08:frame-length", js + "}"); ok = false; }
+            if (obj2) {
+                const arr_real y2 = obj2->process(fr);
+                if (y2.size() != y.size() || (y.size() > 0 && std::memcmp(y2.data(), y.data(), sizeof(double) * size_t(y.size())) != 0)) {
+                    out.fail("C08:default-design-differs", js + "}");
+                    ok = false;
+                }
+            }
+            ystart.push_back(Y.size());
+            yframe.push_back(fi);
+            X.insert(X.end(), Xall.begin() + long(pos), Xall.begin() + long(pos) + len);
+            Y.insert(Y.end(), y.begin(), y.end());
+            pos += size_t(len);
+            out.stat("big_frames_accepted");
+            if (len > 65536) out.stat("big_frames_above_2^16");
+            if (len > 131072) out.stat("big_frames_above_2^17");
+        } catch (const std::exception&) {
+            if (xg) rhs += " ERR";
+            if (!must_reject) { out.fail("C08:frame-rejected-valid", js + "}"); ok = false; }
+            if (obj2) { try { (void)obj2->process(fr); out.fail("C08:frame-not-rejected", js + "}"); } catch (const std::exception&) {} }
+            out.stat("big_frames_rejected");
+        }
+        ++fi;
+    }
+    vh::clear_current();
+    if (xg) out.corr(lhs, rhs);
+    out.stat(std::string("big_class_") + cls);
+    if (!ok) return;
+    if (bypass) {
+        if (Y != X) out.fail(K + "-bypass", js + "}");
+        return;
+    }
+    ld scale = 0;
+    const auto ref = reference(mode, Lr, Mr, h, X, Y.size(), &scale);
+    const ld tol = 1e-12L * (scale + 1e-300L);
+    size_t bad = 0, first_bad = 0;
+    ld worst = 0;
+    for (size_t i = 0; i < Y.size(); ++i) {
+        const ld e = fabsl(ld(Y[i]) - ref[i]);
+        if (!(e <= tol)) { if (!bad) first_bad = i; ++bad; }
+        if (!(e <= worst)) worst = e;
+    }
+    if (bad) {
+        size_t f = 0;
+        while (f + 1 < ystart.size() && ystart[f + 1] <= first_bad) ++f;
+        out.fail(K + "-chain", js + ",\"bad_outputs\":" + std::to_string(bad) + ",\"first_bad_output\":" + std::to_string(first_bad) + ",\"in_frame\":" +
+                                    std::to_string(yframe.empty() ? 0 : yframe[f]) + ",\"offset_in_frame\":" + std::to_string(ystart.empty() ? 0 : first_bad - ystart[f]) +
+                                    ",\"outputs\":" + std::to_string(Y.size()) + ",\"got\":" + vh::jnum(Y[first_bad]) + ",\"want\":" + vh::jnum(double(ref[first_bad])) + "}");
+    }
+    out.stat("big_outputs_checked", (long long)Y.size());
+    if (g_case % 7 == 0) out.sample(js + "}");
+}
+
+static int mult_at_least(int n, int m) { return (n + m - 1) / m * m; }
+static int mult_at_most(int n, int m) { return n / m * m; }
+
+// histories with large frames for one converter: `gran` = frame granule (decimation), `big` = the large frame length wanted
+static std::vector<std::vector<int>> big_histories(vh::Rng& r, int gran, int big, std::vector<const char*>* names) {
+    std::vector<std::vector<int>> H;
+    const int B = mult_at_least(big, gran), small = mult_at_least(r.range(200, 5000), gran), tiny = gran * r.range(1, 3);
+    const int ill = (gran > 1) ? r.range(1, gran - 1) : 0;
+    // a large frame that is not the first call, then small ones again
+    H.push_back({small, B, tiny, small}); names->push_back("small-big-small");
+    // large first, then a larger one (second growth), exact power-of-two style boundaries when the granule allows
+    H.push_back({B, tiny, mult_at_least(2 * big + 1, gran), small}); names->push_back("big-bigger");
+    // rejected calls (also a rejected LARGE one) in front of the first accepted large frame
+    if (gran > 1) { H.push_back({small, B + ill, B, mult_at_most(big, gran) - gran + ill, tiny, small}); names->push_back("rejected-big-then-big"); }
+    // many medium frames (buffer wrap / compaction paths), then the large one, then medium again
+    {
+        std::vector<int> f;
+        const int med = mult_at_least(r.range(300, 900), gran), cnt = std::max(3, std::min(200, (big + big / 2) / med));
+        for (int i = 0; i < cnt; ++i) f.push_back(med);
+        f.push_back(B); f.push_back(med);
+        H.push_back(f); names->push_back("stream-then-big");
+    }
+    return H;
+}
+static std::vector<int> staircase(vh::Rng& r, int gran, int top, bool up) {
+    std::vector<int> f;
+    for (double v = 100 + r.range(0, 200); v < double(top) * 1.01; v *= 2.7 + r.unit()) f.push_back(mult_at_least(int(v), gran));
+    f.push_back(mult_at_least(top, gran));
+    if (!up) std::reverse(f.begin(), f.end());
+    f.push_back(gran * r.range(1, 4));
+    return f;
+}
+
+// ------------------------------------------------------------------------------------ copies of stateful converters
+// A copy (copy-constructed mid-stream, vector<T>(n, proto), copy-assigned) is an independent object with the copied state.
+template <class T>
+static void probe_copy(vh::Rng& r, Kind k, const T& proto, int L, int M, const std::vector<double>& h, const char* hkind) {
+    ++g_case;
+    arm();
+    bool bypass;
+    const Kind mode = mode_of(k, L, M, &bypass);
+    if (bypass) return;
+    const int g = std::gcd(L, M);
+    const int Lr = (k == RESAMPLER) ? L / g : L, Mr = (k == RESAMPLER) ? M / g : M;
+    const int Md = (mode == INTERP) ? 1 : Mr;
+    const std::vector<int> frames = {Md * r.range(1, 30), Md * r.range(1, 30), Md * r.range(1, 30)};
+    const char* xkind;
+    const auto X = gen_x(r, total(frames), r.range(0, 7), 0.4 * std::min(1.0, double(Lr) / Mr), &xkind);
+    const auto Z = gen_x(r, size_t(frames[2]), 0, 0.4, &xkind);
+    const std::string js = jcase(k, L, M, h, hkind, frames, X, xkind);
+    const std::string K = std::string("C08:copy-") + kind_name[k];
+    vh::set_current(K + "-crash", js);
+    out.n_oracle++;
+    auto same = [](const arr_real& a, const arr_real& b) { return a.size() == b.size() && (a.size() == 0 || std::memcmp(a.data(), b.data(), sizeof(double) * size_t(a.size())) == 0); };
+    try {
+        T a(proto);                                   // copy of a fresh prototype
+        const arr_real f1 = arr(X, 0, size_t(frames[0])), f2 = arr(X, size_t(frames[0]), size_t(frames[1])), f3 = arr(X, size_t(frames[0] + frames[1]), size_t(frames[2]));
+        const arr_real y1 = a.process(f1);
+        T b(a);                                       // copy mid-stream
+        std::vector<T> v(2, a);                       // n copies of a used object
+        T c(proto);
+        c = a;                                        // copy-assignment over a fresh object
+        const arr_real y2 = a.process(f2);
+        bool ok = same(y2, b.process(f2)) && same(y2, v[0].process(f2)) && same(y2, v[1].process(f2)) && same(y2, c.process(f2));
+        (void)b.process(arr(Z));                      // the copies move on with other data ...
+        (void)v[1].process(arr(Z));
+        c = proto;                                    // ... or are reset
+        const arr_real y3 = a.process(f3);            // ... the original must not notice
+        ok = ok && same(y3, v[0].process(f3));
+        T p2(proto);
+        ok = ok && same(y1, p2.process(f1)) && same(y1, c.process(f1));   // the prototype is still fresh
+        if (!ok) out.fail(K + "-differs", js);
+        std::vector<double> Y = vec(y1);
+        for (double e : vec(y2)) Y.push_back(e);
+        for (double e : vec(y3)) Y.push_back(e);
+        ld s = 0;
+        for (double e : h) s += e;
+        if (s != 0) {
+            ld scale = 0;
+            const auto ref = reference(mode, Lr, Mr, h, X, Y.size(), &scale);
+            ld worst = 0;
+            for (size_t i = 0; i < Y.size(); ++i) worst = std::max(worst, fabsl(ld(Y[i]) - ref[i]));
+            if (!(worst <= 1e-12L * (scale + 1e-300L))) out.fail(K + "-chain", js);
+        }
+    } catch (const std::exception&) { out.fail(K + "-throws", js); }
+    vh::clear_current();
+    out.stat("copy_probes");
+}
+static void copy_probes(vh::Rng& r, int L, int M) {
+    const int R = std::max(L, M);
+    for (int rep = 0; rep < 2; ++rep) {
+        const char* hk = rep ? "sym-any" : "default";
+        if (M == 1 && L > 1) { const auto h = rep ? rand_symmetric(r, r.range(2, 20 * R)) : vec(design_multirate_fir(L, 1)); probe_copy(r, INTERP, FIRInterpolator(L, arr(h)), L, 1, h, hk); }
+        if (L == 1 && M > 1) { const auto h = rep ? rand_symmetric(r, r.range(2, 20 * R)) : vec(design_multirate_fir(1, M)); probe_copy(r, DECIM, FIRDecimator(M, arr(h)), 1, M, h, hk); }
+        const auto h = rep ? rand_symmetric(r, r.range(2, 20 * R)) : vec(design_multirate_fir(L, M));
+        if (L != M) {
+            probe_copy(r, RATECONV, FIRRateConverter(L, M, arr(h)), L, M, h, hk);
+            probe_copy(r, RESAMPLER, FIRResampler(L, M, arr(h)), L, M, h, hk);
+        }
     }
 }
 
@@ -373,9 +652,15 @@ static std::string jres(const char* op, int p, int q, size_t len, const char* ex
 }
 
 // resample(x,p,q,h) against: length law, chain on the zero-extended input shifted by delay()
-static void case_resample_exact(int p, int q, const std::vector<double>& h, const char* hkind, const std::vector<double>& x, bool dflt, bool corr) {
+static void case_resample_exact(int p, int q, const std::vector<double>& h, const char* hkind, const std::vector<double>& x, bool dflt, bool corr,
+                                const XGen* xg = nullptr, const char* cls = "") {
     ++g_case;
-    const std::string js = jres("resample", p, q, x.size(), (std::string(",\"hkind\":\"") + hkind + "\",\"hlen\":" + std::to_string(h.size())).c_str());
+    arm();
+    std::string extra = std::string(",\"hkind\":\"") + hkind + "\",\"hlen\":" + std::to_string(h.size());
+    if (cls[0]) extra += std::string(",\"class\":\"") + cls + "\"";
+    if (xg) extra += ",\"xgen\":[" + std::to_string(xg->a) + "," + std::to_string(xg->zrun) + "," + vh::jnum(xg->scale) + "]";
+    if (h.size() <= 48) extra += ",\"h\":" + vh::jarr(arr(h));
+    const std::string js = jres("resample", p, q, x.size(), extra.c_str());
     const int g = std::gcd(p, q), pr = p / g, qr = q / g;
     const arr_real xa = arr(x), ha = arr(h);
     vh::set_current("C08:resample-crash", js);
@@ -384,8 +669,20 @@ static void case_resample_exact(int p, int q, const std::vector<double>& h, cons
     try { y = resample(xa, p, q, ha); } catch (const std::exception&) { threw = true; }
     vh::clear_current();
     out.n_oracle++;
-    if (corr) out.corr("resample " + std::to_string(p) + " " + std::to_string(q) + " " + vh::hxs(ha) + " " + vh::hxs(xa), threw ? "ERR" : vh::hxs(y));
+    if (corr && xg)   // generated input: the driver rebuilds x, the output is compared as a digest
+        out.corr("bigres " + std::to_string(p) + " " + std::to_string(q) + " " + vh::hxs(ha) + " " + std::to_string(xg->a) + " " + std::to_string(xg->zrun) + " " +
+                     vh::hx(xg->scale) + " " + std::to_string(x.size()), threw ? "ERR" : digest(y));
+    else if (corr) out.corr("resample " + std::to_string(p) + " " + std::to_string(q) + " " + vh::hxs(ha) + " " + vh::hxs(xa), threw ? "ERR" : vh::hxs(y));
     if (threw) { out.fail("C08:resample-throws", js); return; }
+    if (x.size() <= 3000 && g_case % 3 == 0) {   // operands that are C++ temporaries / expression results: same bits, own storage
+        bool same = false;
+        try {
+            const arr_real& yt = resample(xa * 1.0, p, q, arr_real(ha));
+            same = yt.size() == y.size() && (y.size() == 0 || std::memcmp(yt.data(), y.data(), sizeof(double) * size_t(y.size())) == 0);
+        } catch (const std::exception&) {}
+        if (!same) out.fail("C08:resample-temporaries-differ", js);
+        out.stat("resample_temporaries");
+    }
     const long want = long(pr) * ((long(x.size()) + qr - 1) / qr);
     if (long(y.size()) != want) { out.fail("C08:resample-length", js); return; }
     if (dflt) {
@@ -407,10 +704,44 @@ static void case_resample_exact(int p, int q, const std::vector<double>& h, cons
     if (s == 0) return;
     ld scale = 0;
     const auto ref = reference(mode, pr, qr, h, x, size_t(dl) + size_t(y.size()), &scale);
-    ld worst = 0;
-    for (int i = 0; i < y.size(); ++i) worst = std::max(worst, fabsl(ld(y[i]) - ref[size_t(dl + i)]));
-    if (!(worst <= 1e-12L * (scale + 1e-300L))) out.fail("C08:resample-chain", js);
+    const ld tol = 1e-12L * (scale + 1e-300L);
+    long bad = 0, first_bad = 0;
+    for (int i = 0; i < y.size(); ++i)
+        if (!(fabsl(ld(y[i]) - ref[size_t(dl + i)]) <= tol)) { if (!bad) first_bad = i; ++bad; }
+    if (bad) {
+        std::string w = js;
+        w.pop_back();
+        out.fail("C08:resample-chain", w + ",\"bad_outputs\":" + std::to_string(bad) + ",\"first_bad_output\":" + std::to_string(first_bad) + ",\"outputs\":" + std::to_string(y.size()) +
+                                           ",\"delay\":" + std::to_string(dl) + ",\"got\":" + vh::jnum(y[int(first_bad)]) + ",\"want\":" + vh::jnum(double(ref[size_t(dl + first_bad)])) + "}");
+    }
     out.stat("resample_exact");
+    if (cls[0]) { out.stat(std::string("resample_class_") + cls); out.stat("resample_big_outputs_checked", y.size()); }
+}
+
+// resample() on one long input.  `gen_kind` < 0: generated integer input (+ digest CORR when `corr`), else a random signal kind.
+static void case_resample_big(vh::Rng& r, int p, int q, int len, int hsel, bool corr, const char* cls, int xscale_class = -1, int hscale_class = -1) {
+    const int g = std::gcd(p, q), pr = p / g, qr = q / g, R = std::max(pr, qr);
+    if (pr == qr || len <= 0) return;
+    std::vector<double> h;
+    const char* hkind;
+    bool dflt = false;
+    if (hsel == 0) { hkind = "default"; dflt = true; h = vec(default_resample_fir(pr, qr, 10, 5.0)); }
+    else if (hsel == 1) { hkind = "sym-short"; h = rand_symmetric(r, r.range(2, 4 * R + 1)); }
+    else if (hsel == 2) { hkind = "sym-any"; h = rand_symmetric(r, r.range(2, R <= 16 ? 24 * R : 3 * R)); }
+    else { hkind = "design90"; h = vec(design_multirate_fir(pr, qr)); }
+    if (hscale_class >= 0 && hsel != 0) scale_by(h, SCALES[hscale_class]);
+    XGen xg{r.range(0, 18), (r.range(0, 2) == 0) ? r.range(1, 3000) : 0, xscale_class >= 0 ? SCALES[xscale_class] : 1.0};
+    std::vector<double> x;
+    const bool generated = corr || r.range(0, 2) == 0;
+    if (generated) {
+        x.resize(size_t(len));
+        for (size_t i = 0; i < x.size(); ++i) x[i] = xgen(xg, i);
+    } else {
+        const char* xkind;
+        x = gen_x(r, size_t(len), r.range(0, 7), 0.5 * std::min(1.0, double(pr) / qr), &xkind);
+        if (xscale_class >= 0) scale_by(x, SCALES[xscale_class]);
+    }
+    case_resample_exact(p, q, h, hkind, x, dflt, corr, generated ? &xg : nullptr, cls);
 }
 
 // least-squares lag (in output samples) of y against the analytic signal s(t), t in input samples: y_i ~ s((i - lag) q/p)
@@ -445,6 +776,7 @@ static double g_worst_lag = 0, g_worst_rms = 0;
 static void case_resample_align(int p, int q) {
     const int g = std::gcd(p, q), pr = p / g, qr = q / g;
     if (pr == qr) return;
+    arm();
     const int R = std::max(pr, qr);
     const double edge = 0.5 * std::min(1.0, double(pr) / double(qr));   // cycles per input sample
     const int skip = 20 * R / qr + 4;                                   // filter length in output samples
@@ -515,9 +847,9 @@ int main(int argc, char** argv) {
     case_polyphase({1.0, -1.0, 0.0}, 2, 2.0, true);
 
     // ---- the converters: all reduced L/M in 1..16 (both tiers; quick with fewer repetitions)
-    const int reps = a.thorough ? 72 : 12;
-    g_corr_reps = a.thorough ? 10 : 6;
-    const size_t budget = a.thorough ? 4000 : 2500;
+    const int reps = a.thorough ? 72 : 16;
+    g_corr_reps = a.thorough ? 8 : 6;
+    const size_t budget = a.thorough ? 3000 : 2500;
     for (int L = 1; L <= NMAX; ++L)
         for (int M = 1; M <= NMAX; ++M) {
             const bool reduced = std::gcd(L, M) == 1;
@@ -552,6 +884,138 @@ int main(int argc, char** argv) {
     run_converter(DECIM, 1, 2, {1.0, -1.0, 0.5, -0.5}, "zero-dc", false, {4, 2}, {1, 2, 3, 4, 5, 6, 7}, "ramp-int", true);
     run_converter(RATECONV, 3, 2, {1.0, -2.0, 1.0}, "zero-dc", false, {4, 2}, {1, 2, 3, 4, 5, 6, 7}, "ramp-int", true);
 
+    // ---- copies of stateful converters (copy-construct from a prototype, mid-stream, vector(n, proto), copy-assign)
+    {
+        const int CM = a.thorough ? 16 : 6;
+        for (int L = 1; L <= CM; ++L)
+            for (int M = 1; M <= CM; ++M)
+                if (std::gcd(L, M) == 1 && L != M) copy_probes(rng, L, M);
+        copy_probes(rng, 160, 147);
+        copy_probes(rng, 6, 4);   // not reduced: the rate converter itself does not reduce, the resampler does
+        copy_probes(rng, 2, 8);
+    }
+
+    // ---- large single frames inside histories (every output of every call against the chain)
+#ifdef VH_SANITIZER
+    const bool heavy = false;   // the sanitizer run repeats the quick-size selection of the large classes
+#else
+    const bool heavy = a.thorough;
+#endif
+    {
+        struct Conv { Kind k; int L, M; };
+        const std::vector<std::vector<Conv>> pools = {
+            {{INTERP, 2, 1}, {INTERP, 3, 1}, {INTERP, 4, 1}, {INTERP, 5, 1}, {INTERP, 8, 1}, {INTERP, 16, 1}},
+            {{DECIM, 1, 4}, {DECIM, 1, 2}, {DECIM, 1, 3}, {DECIM, 1, 7}, {DECIM, 1, 16}, {DECIM, 1, 441}},
+            {{RATECONV, 3, 2}, {RATECONV, 2, 3}, {RATECONV, 5, 7}, {RATECONV, 7, 4}, {RATECONV, 160, 147}, {RATECONV, 147, 160}, {RATECONV, 4, 9}, {RATECONV, 1, 5}},
+            {{RESAMPLER, 1, 4}, {RESAMPLER, 4, 1}, {RESAMPLER, 3, 2}, {RESAMPLER, 6, 4}, {RESAMPLER, 2, 8}, {RESAMPLER, 441, 160}, {RESAMPLER, 44100, 48000}, {RESAMPLER, 5, 5}},
+        };
+        std::vector<Conv> convs;
+        for (auto& pool : pools) {
+            if (heavy) { convs.insert(convs.end(), pool.begin(), pool.end()); continue; }
+            // quick: the first entry of the pool always, one more rotating with the seed
+            convs.push_back(pool[0]);
+            convs.push_back(pool[1 + size_t(a.seed % (pool.size() - 1))]);
+        }
+        const std::vector<int> bigs = heavy ? std::vector<int>{4097, 16385, 32769, 49152, 49153, 65536, 65537, 98304, 98305, 131072, 131073, 196609, 262145, 1000000}
+                                            : std::vector<int>{65537, 131073};
+        int sel = int(a.seed);
+        for (auto& c : convs) {
+            bool byp;
+            const Kind md = mode_of(c.k, c.L, c.M, &byp);
+            const int gg = (c.k == RESAMPLER) ? std::gcd(c.L, c.M) : 1;
+            const int Lr = c.L / gg, Mr = c.M / gg, R = std::max(Lr, Mr);
+            const int gran = (byp || md == INTERP) ? 1 : Mr;
+            for (size_t bi = 0; bi < bigs.size(); ++bi) {
+                const int big = bigs[bi];
+                // interpolators multiply the sample count by L: keep the largest sizes for the cheaper converters
+                if (md != DECIM && !byp && long(big) * Lr / Mr > (heavy ? 1200000 : 300000)) continue;
+                std::vector<const char*> names;
+                const auto H = big_histories(rng, gran, big, &names);
+                for (size_t hi = 0; hi < H.size(); ++hi) {
+                    if (!heavy && bi > 0 && hi > 0) continue;   // quick: the larger size only as small-big-small
+                    ++sel;
+                    std::vector<double> h;
+                    const char* hkind;
+                    bool dflt = false;
+                    const XGen xg{rng.range(0, 18), (sel % 5 == 0) ? rng.range(50, 5000) : 0, (sel % 7 == 3) ? SCALES[sel % 8] : 1.0};
+                    const XGen* pxg = nullptr;
+                    if (sel % 3 == 0) { hkind = "default"; dflt = true; h = vec(design_multirate_fir(md == DECIM ? 1 : Lr, md == INTERP ? 1 : Mr)); if (c.k == RATECONV) h = vec(design_multirate_fir(c.L, c.M)); }
+                    else if (sel % 3 == 1) { hkind = "sym-short"; h = rand_symmetric(rng, rng.range(2, std::max(2, 3 * R))); if (h.size() <= 1500 && big <= 140000) pxg = &xg; if (sel % 2) scale_by(h, SCALES[sel % NSCALES]); }
+                    else { hkind = "sym-any"; h = rand_symmetric(rng, rng.range(2, (R <= 16 ? 24 : 3) * R)); }
+                    if (byp) { h = {1.0}; hkind = "bypass"; dflt = false; }
+                    run_big(rng, c.k, c.L, c.M, h, hkind, dflt, H[hi], pxg, names[hi]);
+                }
+            }
+            // frames growing / shrinking geometrically: whatever size an internal buffer switches its strategy at is crossed
+            const int top = (md == DECIM || byp) ? (heavy ? 600000 : 200000) : int(std::min<long>(heavy ? 300000 : 140000, (heavy ? 900000L : 300000L) * Mr / Lr));
+            const auto hs = rand_symmetric(rng, rng.range(2, std::max(2, 6 * R)));
+            const XGen xg{rng.range(0, 18), 0, 1.0};
+            run_big(rng, c.k, c.L, c.M, byp ? std::vector<double>{1.0} : hs, "sym-short", false, staircase(rng, gran, top, true), (hs.size() <= 1500 && !heavy) ? &xg : nullptr, "staircase-up");
+            if (heavy || (a.seed + size_t(&c - &convs[0])) % 2 == 0) {
+                const auto hd = vec(design_multirate_fir(md == DECIM ? 1 : Lr, md == INTERP ? 1 : Mr));
+                run_big(rng, c.k, c.L, c.M, byp ? std::vector<double>{1.0} : (c.k == RATECONV ? vec(design_multirate_fir(c.L, c.M)) : hd), "default", !byp, staircase(rng, gran, top, false), nullptr, "staircase-down");
+            }
+        }
+    }
+
+    // ---- extreme but valid ratios: factors up to 65536 (uint16_t branch offsets), short and long coefficient vectors
+    {
+        struct Ext { Kind k; int L, M; bool corr; bool dflt; bool quick; };
+        const std::vector<Ext> ext = {
+            {RATECONV, 2, 40001, true, true, true},    {RATECONV, 32769, 2, false, true, true},   {RATECONV, 3, 65536, true, true, true},
+            {RATECONV, 32768, 32769, false, false, true}, {RATECONV, 48000, 44101, false, false, false}, {RATECONV, 5, 65535, true, false, false},
+            {RATECONV, 32767, 32768, false, false, false}, {RATECONV, 40000, 39999, false, false, false}, {RATECONV, 7, 32769, true, false, true},
+            {DECIM, 1, 65537, true, true, true},       {DECIM, 1, 40000, true, false, true},      {DECIM, 1, 100003, true, false, false},
+            {INTERP, 40000, 1, true, false, true},     {INTERP, 65537, 1, true, true, true},      {INTERP, 100003, 1, false, false, false},
+            {RESAMPLER, 2, 40001, true, true, true},   {RESAMPLER, 4, 80002, true, false, true},  {RESAMPLER, 1, 65537, true, false, true},
+            {RESAMPLER, 32769, 2, false, false, true}, {RESAMPLER, 48000, 44101, false, false, true}, {RESAMPLER, 44101, 48000, false, false, false},
+            {RESAMPLER, 65537, 1, true, false, false}, {RESAMPLER, 3, 65536, true, false, true},  {RESAMPLER, 96000, 3, false, false, false},
+        };
+        for (auto& e : ext) {
+            if (!a.thorough && !e.quick) continue;
+            bool byp;
+            const Kind md = mode_of(e.k, e.L, e.M, &byp);
+            const int gg = (e.k == RESAMPLER) ? std::gcd(e.L, e.M) : 1;
+            const int Lr = e.L / gg, Mr = e.M / gg, R = std::max(Lr, Mr);
+            const int gran = (md == INTERP) ? 1 : Mr;
+            std::vector<int> frames = {gran, 0, 2 * gran};
+            if (gran > 1) { frames.push_back(gran + 1); frames.push_back(gran - 1); }
+            frames.push_back(gran);
+            if (md == INTERP) frames = {1, 0, 2, 3};
+            const XGen xg{rng.range(0, 18), 0, 1.0};
+            // short coefficient vector (every branch has one tap, most branches are zero)
+            run_big(rng, e.k, e.L, e.M, rand_symmetric(rng, rng.range(2, 16)), "sym-short", false, frames, e.corr ? &xg : nullptr, "extreme-ratio");
+            // a little more than two taps per branch
+            run_big(rng, e.k, e.L, e.M, rand_symmetric(rng, 2 * R + rng.range(1, 9)), "sym-2R", false, frames, nullptr, "extreme-ratio");
+            if (e.dflt && (a.thorough || (a.seed + size_t(&e - &ext[0])) % 2 == 0)) {
+                const auto hd = vec(design_multirate_fir(md == DECIM ? 1 : e.L, md == INTERP ? 1 : e.M));
+                run_big(rng, e.k, e.L, e.M, hd, "default", true, frames, nullptr, "extreme-ratio");
+            }
+            out.stat("extreme_ratios");
+        }
+        // Decimation factors above 65536: the branch offsets were once stored as uint16_t and FIRRateConverter(2, 65537) wrapped the
+        // offset 65536 to 0 (wrong samples, no memory error); repaired in /repo (known_findings.txt). Strict probe.
+        {
+            const std::vector<double> h = {1, 2, 3, 4, 4, 3, 2, 1};
+            const int L = 2, M = 65537;
+            std::vector<double> X(size_t(2 * M));
+            for (size_t i = 0; i < X.size(); ++i) X[i] = xgen(XGen{3, 0, 1.0}, i);
+            const std::string js = "{\"op\":\"rateconv\",\"L\":2,\"M\":65537,\"h\":[1,2,3,4,4,3,2,1],\"frames\":[131074],\"xgen\":[3,0,1]}";
+            vh::set_current("C08:rateconv-crash", js);
+            bool wrong = false;
+            try {
+                FIRRateConverter rc(L, M, arr(h));
+                const arr_real y = rc.process(arr(X));
+                ld scale = 0;
+                const auto ref = reference(RATECONV, L, M, h, X, size_t(y.size()), &scale);
+                for (int i = 0; i < y.size(); ++i) if (!(fabsl(ld(y[i]) - ref[size_t(i)]) <= 1e-12L * scale)) wrong = true;
+            } catch (const std::exception&) { wrong = true; }
+            vh::clear_current();
+            out.stat("beyond_limit_rateconv_decim_65537_wrong", wrong ? 1 : 0);
+            if (wrong) out.fail("C08:rateconv-decim-above-65536", js);
+        }
+    }
+
     // ---- resample(): exact chain + lengths + identity
     const int PQ = a.thorough ? 16 : 8;
     std::vector<std::pair<int, int>> ratios;
@@ -584,9 +1048,82 @@ int main(int argc, char** argv) {
             case_resample_exact(p, q, h, hkind, x, dflt, corr);
         }
     }
+    // ---- resample(): long inputs — lengths that are exact multiples of plausible internal block sizes (aligned to q'), one off,
+    //      powers of two +-1, 10^6; every output (the LAST delay() ones included) against the chain
+    {
+        std::vector<int> qs = {1, 2, 3, 4, 5, 6, 7, 8};
+        if (heavy) for (int q = 9; q <= 16; ++q) qs.push_back(q);
+        for (int q : {147, 160, 441}) qs.push_back(q);
+        const std::vector<int> bases = heavy ? std::vector<int>{4096, 8192, 12288, 16384, 24576, 32768, 49152, 65536, 98304, 131072, 196608, 262144, 10000, 50000, 100000}
+                                             : std::vector<int>{32768, 49152, 65536, 131072};
+        int rot = int(a.seed);
+        for (int q : qs) {
+            // numerators coprime to q: small ones (rotating), and the audio partners
+            std::vector<int> ps;
+            if (q == 147) ps = {160, 320, 2};
+            else if (q == 160) ps = {147, 441};
+            else if (q == 441) ps = {160, 2};
+            else for (int p = 1; p <= (heavy ? 16 : 8); ++p) if (std::gcd(p, q) == 1 && p != q) ps.push_back(p);
+            const int np = heavy ? std::min<int>(3, int(ps.size())) : 1;
+            for (int pi = 0; pi < np; ++pi) {
+                const int p = ps[size_t(rot++) % ps.size()];
+                for (int B : bases) {
+                    const int nb = mult_at_most(B, q), nu = mult_at_least(B, q);
+                    std::vector<std::pair<int, const char*>> lens = {{nb, "block-multiple"}, {2 * nb, "block-multiple"}};
+                    if (heavy) {
+                        if (B <= 65536) lens.push_back({3 * nb, "block-multiple"});
+                        lens.push_back({nu, "block-multiple"}); lens.push_back({B + 1, "block-plus-1"}); lens.push_back({nb - 1, "block-minus-1"}); lens.push_back({nb + q, "block-plus-q"});
+                    } else {
+                        const int w = rot++ % 4;
+                        lens.push_back(w == 0 ? std::make_pair(B + 1, "block-plus-1") : w == 1 ? std::make_pair(nb - 1, "block-minus-1") : w == 2 ? std::make_pair(nu, "block-multiple") : std::make_pair(3 * nb, "block-multiple"));
+                    }
+                    for (auto& lc : lens) {
+                        if (long(lc.first) * p / q > (heavy ? 1500000 : 600000)) continue;
+                        ++rot;
+                        // a non-reduced spelling of the ratio now and then
+                        const int mul = (rot % 5 == 0) ? 3 : 1;
+                        case_resample_big(rng, p * mul, q * mul, lc.first, rot % 4, false, lc.second, (rot % 6 == 0) ? rot % 8 : -1, (rot % 5 == 1) ? rot % NSCALES : -1);
+                    }
+                }
+            }
+        }
+        // fixed large sizes
+        const std::pair<int, int> rr[] = {{3, 2}, {2, 3}, {1, 4}, {160, 147}, {5, 1}, {1, 16}, {7, 5}};
+        const int fixed[] = {65535, 65537, 131071, 131073, 262144, 1000000};
+        for (size_t i = 0; i < sizeof(fixed) / sizeof(int); ++i)
+            for (size_t j = 0; j < sizeof(rr) / sizeof(rr[0]); ++j)
+                if (heavy || (i + j + a.seed) % 7 == 0 || (i == 5 && j == a.seed % 3))
+                    if (long(fixed[i]) * rr[j].first / rr[j].second <= 1600000) case_resample_big(rng, rr[j].first, rr[j].second, fixed[i], int(i + j) % 4, false, "fixed-large");
+        // a few of them through CORR as digests (short coefficient vectors: the Lean model recomputes the whole output)
+        const std::pair<int, int> cr[] = {{3, 2}, {1, 4}, {2, 7}, {5, 3}, {4, 1}, {2, 441}};
+        for (size_t j = 0; j < sizeof(cr) / sizeof(cr[0]); ++j) {
+            if (!a.thorough && j % 3 != a.seed % 3) continue;
+            const int q = cr[j].second;
+            case_resample_big(rng, cr[j].first, q, mult_at_most(49152, q), 1, true, "block-multiple");
+            case_resample_big(rng, cr[j].first, q, 2 * mult_at_most(32768, q), 1, true, "block-multiple");
+            case_resample_big(rng, cr[j].first, q, 65537, 1, true, "fixed-large", int(j) % 8, int(j + a.seed) % NSCALES);
+        }
+        // extreme ratios
+        const std::pair<int, int> er[] = {{2, 40001}, {32769, 2}, {1, 65537}, {3, 65536}, {48000, 44101}, {32768, 32769}, {65537, 1}, {4, 80002}};
+        for (size_t j = 0; j < sizeof(er) / sizeof(er[0]); ++j) {
+            const int p = er[j].first, q = er[j].second;
+            if (!a.thorough && (j == 4 || j == 5) && (a.seed + j) % 2) continue;
+            const int gq = q / std::gcd(p, q);
+            for (int len : {1, gq - 1, gq, gq + 1, 2 * gq + 7}) {
+                if (len < 1 || long(len) * p / q > 400000) continue;
+                const auto h = rand_symmetric(rng, rng.range(2, 24));
+                const XGen xg{rng.range(0, 18), 0, 1.0};
+                std::vector<double> x((size_t)len);
+                for (size_t i = 0; i < x.size(); ++i) x[i] = xgen(xg, i);
+                case_resample_exact(p, q, h, "sym-short", x, false, false, &xg, "extreme-ratio");
+            }
+        }
+    }
+
     // ---- resample(): boundary probes
     for (auto pq : ratios) {   // empty input: p'*ceil(0/q') = 0 samples
         const int p = pq.first, q = pq.second;
+        arm();
         const std::string js = jres("resample-empty", p, q, 0);
         vh::set_current("C08:resample-crash", js);
         out.n_oracle++;
@@ -603,6 +1140,7 @@ int main(int argc, char** argv) {
         const int len = 4869441 + rng.range(0, 2000);
         arr_real x(len);
         for (int i = 0; i < len; ++i) x[i] = std::sin(0.01 * i);
+        arm();
         const std::string js = jres("resample-long", 441, 160, size_t(len));
         vh::set_current("C08:resample-crash", js);
         out.n_oracle++;
